@@ -347,7 +347,7 @@ func runC14(c *core.Ctx) {
 					c.Violation("GenerateKey:panic", "GenerateKey panicked: "+pv, d)
 					continue
 				}
-				if (ferr == nil) != (serr == nil) || (ferr != nil && ferr.Error() != serr.Error()) || !bytes.Equal(fp, sp) || !bytes.Equal(fk, sk) || r1.consumed != r2.consumed || r1.reads != r2.reads {
+				if (ferr == nil) != (serr == nil) || (ferr != nil && ferr.Error() != serr.Error()) || !bytes.Equal(fp, sp) || !bytes.Equal(fk, sk) || r1.consumed != r2.consumed {
 					c.Violation("GenerateKey:differs-from-std", "GenerateKey behaves differently from crypto/ed25519 under the same entropy reader", d)
 					continue
 				}
